@@ -81,7 +81,7 @@ def plan(tier, seed):
         run=run_task,
         rule="all statement sequences up to the depth bound from each initial world (DFS, no state merging); "
         "states = distinct (values, sharing pattern, shapes) digests of the NumPy model; non-trivial = history "
-        "with >=1 in-place write or .shape assignment while >=2 live tensors share memory",
+        "with >=1 in-place write or .shape assignment (incl. assignments NumPy rejects: must raise and change nothing) while >=2 live tensors share memory",
         bounds={w: d for w, d in BOUNDS[tier]},
         assumptions=[
             "values from a fixed dyadic table rotated by VERIF_SEED; roots (4,) and (2,3); <=6 live tensors",
